@@ -204,6 +204,10 @@ def C08_3(ctx, facts):
             sa, sb = sym_len(f, c.a, rb), sym_len(f, c.b, rb)
             if {sa, sb} == {"FILLED@after", "FILLED@before"}:
                 return lab.value is (c.op == "Eq")  # zero progress
+        if c.kind == "call" and c.site.matches(r"<impl \[T\]>::is_empty$|slice.*::is_empty$") and c.site.args:
+            ext = slice_extent(f, c.site.args[0], rb)
+            if ext is not None and ext[0] == "FILLED" and ext[1] == "FILLED@before" and ext[2] == "FILLED@after":
+                return lab.value is True  # filled[before..after] is empty: zero progress
         if c.kind == "call" and c.site.bb in cmps:
             kind = cmps[c.site.bb]
             if kind == "ne":
